@@ -23,7 +23,7 @@ TECHNIQUE = 'reference dataflow evaluator + write-protection/digest purity monit
 RULE = ('graphs from vlib.scalegen.gen_graph; non-trivial = graph with >=2 scales or properties on a non-channel level; distinct = (scale '
         'kinds + wiring, raw type, level)')
 ASSUMPTIONS = ['int raw data is converted to float64 before Linear/Polynomial/Table evaluation (NumPy promotion)']
-REQUIRED = ['count_variant_reads', 'daqmx_graphs_without_count', 'purity_cases', 'graphs', 'scaled_compared', 'windows_compared', 'lazy_compared', 'purity_checks', 'level:channel', 'level:group', 'level:root',
+REQUIRED = ['scaled_index_then_window', 'count_variant_reads', 'daqmx_graphs_without_count', 'purity_cases', 'graphs', 'scaled_compared', 'windows_compared', 'lazy_compared', 'purity_checks', 'level:channel', 'level:group', 'level:root',
             'status_scaled_cases', 'daqmx_graphs', 'precedence_cases', 'no_count_property', 'parents:first', 'parents:last', 'parents:later']
 N = {'quick': 10000, 'thorough': 1000000}
 
@@ -308,6 +308,20 @@ def run_case(case, ctx):
             parts = [c_[:] for c_ in lch.data_chunks()]
             if parts and not C.img_equal(C.image(np.concatenate(parts)), C.image(got)):
                 ctx.violation('chunked-scaling-differs', info)
+            # scaled values must not depend on what was looked up before: integer lookups, then windows and slices again
+            for i in sorted({0, N_ // 2, N_ - 1}) if N_ else []:
+                v = lch[i]
+                ctx.count('scaled_index_then_window')
+                if not C.img_equal(C.image(np.asarray([v])), C.image(got[i:i + 1])):
+                    ctx.violation('scaled-index-differs/%s' % kinds, dict(info, index=i, got=repr(v), want=repr(got[i])))
+                for (o, l) in [(i, N_), (max(0, i - 1), 3), (i, 1)]:
+                    w = lch.read_data(o, l)
+                    if not C.img_equal(C.image(w), C.image(got[o:o + l])):
+                        ctx.violation('window-after-index-differs-from-scaled-window', dict(info, index=i, offset=o, length=l, got=C.short(C.image(w)),
+                                                                                             want=C.short(C.image(got[o:o + l]))))
+                w = lch[i:]
+                if not C.img_equal(C.image(w), C.image(got[i:])):
+                    ctx.violation('slice-after-index-differs-from-scaled-slice', dict(info, index=i))
     except contracts.ContractBroken as ex:
         ctx.violation('contract/%s' % util.exc_key(ex), info)
     except Exception as ex:
